@@ -5,6 +5,12 @@ ROOT = os.path.dirname(os.path.dirname(os.path.abspath(__file__)))
 ALL = ["C%02d" % i for i in range(1, 21)]
 
 CHECKS = {
+ "C10": dict(
+   engine="driver",
+   technique="TLA+ spec SolveCodes.tla (documented ranges, predicates, run as a state machine); every code -200..999 is run through a real driver with a scripted backend and each run is trace-validated by TLC; MCSolveCodes design check",
+   text="Complete enumeration of the status-code space (1200 codes; all 8 primal/dual/objective answer shapes in the thorough tier, boundary codes + sample in quick) executed end-to-end through BackendApp/StdBackend/.sol writer; TLC validates each run (library predicates, IIS/ray steps taken, objective shown, code written to .sol, -! table) against the specification.",
+   note="Trusts the scripted backend to behave like a solver driver (it only calls SetStatus and returns the scripted vectors), the strict .sol parser in tools/nlgen.py, TLC.",
+   design="5/C10"),
  "C17": dict(
    engine="core",
    technique="TLA+ spec SafeInt.tla (+BigInt.tla) as oracle; TLC validates the trace recorded from the real templates (complete 8-bit enumeration, 16-bit boundaries, wide types via byte-limb arithmetic); TLC design check MCSafeInt cross-checks the oracle",
@@ -38,7 +44,8 @@ def main():
                   "baseline_off_cmd": "python3 tools/baseline_check.py",
                   "source_commits": HOOK_COMMITS, "add_only": True},
         "engines": [
-            {"name": "core", "path": "specs/core", "serves_properties": ["C10", "C11", "C15", "C17", "C18"], "kind_free_text": "TLA+ specs + TLC trace validation of h_core harnesses (ASan/UBSan)"},
+            {"name": "core", "path": "specs/core", "serves_properties": ["C11", "C15", "C17", "C18"], "kind_free_text": "TLA+ specs + TLC trace validation of h_core harnesses (ASan/UBSan)"},
+            {"name": "driver", "path": "harness/drv", "serves_properties": ["C09", "C10", "C12"], "kind_free_text": "real BackendApp driver with recording ModelAPI + scripted backend; runs validated by TLC against specs/core, specs/driver"},
         ],
         "checks": checks,
         "not_applicable": na,
